@@ -148,7 +148,10 @@ def register(cat):
     def gen_ttv_dims(c, r):
         sh = shp(c.obj(r))
         n = len(sh)
-        kind = c.g.choice(["oor", "negative", "repeated", "both"])
+        kind = c.g.choice(["oor", "negative", "repeated", "both", "exclude_negative", "exclude_oor"])
+        if kind in ("exclude_negative", "exclude_oor"):
+            ex = [-1 - c.g.randint(0, 1)] if kind == "exclude_negative" else [n + c.g.randint(0, 1)]
+            return {"operands": [r] + [c.fresh(rand_array(c.g, (s,))) for s in sh], "dims": None, "exclude": ex}
         if kind == "oor":
             return {"operands": [r, c.fresh(rand_array(c.g, (sh[0],)))], "dims": [n + c.g.randint(0, 1)], "exclude": None}
         if kind == "negative":
@@ -159,6 +162,8 @@ def register(cat):
 
     def run_ttv_dims(eng, ops, st):
         vs = list(ops[1:])
+        if st["dims"] is None:
+            return ops[0].ttv(vs, exclude_dims=np.array(st["exclude"]))
         if st["exclude"] is not None:
             return ops[0].ttv(vs if len(vs) > 1 else vs[0], dims=np.array(st["dims"]), exclude_dims=np.array(st["exclude"]))
         return ops[0].ttv(vs if len(vs) > 1 else vs[0], dims=np.array(st["dims"]))
@@ -166,9 +171,12 @@ def register(cat):
     def bad_dims(ops, st):
         n = ops[0].ndims
         d = st["dims"]
+        if d is None:
+            return any(x < 0 or x >= n for x in st["exclude"])
         return st["exclude"] is not None or any(x >= n or x < -n for x in d) or len(set(d)) != len(d) or any(x < -n for x in d)
 
     bad("T.ttv_dims", "T", gen_ttv_dims, run_ttv_dims, bad_dims)
+    bad("TT.ttv_dims", "TT", gen_ttv_dims, run_ttv_dims, bad_dims)
     bad("S.ttv_dims", "S", gen_ttv_dims, run_ttv_dims, bad_dims, known=None)
     bad("K.ttv_dims", "K", gen_ttv_dims, run_ttv_dims, bad_dims)
 
